@@ -416,6 +416,10 @@ def run_shard(job: dict[str, Any]) -> dict[str, Any]:
                 )
                 continue
             want = capm.expected_probe(cfg)
+            # HttpServerCapabilities has no attribute for these two advertised settings: nothing to compare, counted
+            for flag, fld in (("proof_required", "proxy_proof_required"), ("introspection", "token_introspection")):
+                if cfg.get(flag) and not hasattr(caps, fld):
+                    chk.skip(f"probe_has_no_field:{fld}")
             chk.case(f"client_probe:{shape}")
             chk.hit("probe_compared")
             for fld, exp in want.items():
